@@ -26,7 +26,7 @@ MANIFEST = {
             'smallest for all (p,d) (bounded instances only). GF/xGF acceptance is is_irreducible by inspection of '
             'finfields.xGF (modelled as gf_accepts := is_irreducible) and checked on the implementation against the sieve. '
             'Search loops carry explicit fuel (None/NoFuel on exhaustion; bounded theorems show it does not occur there).',
-    'technique': 'Coq executable model + bounded-exhaustive vm_compute theorems + refutation witness + exhaustive differential '
+    'technique': 'Coq executable model + bounded-exhaustive vm_compute theorems (the former refutation witness p=3, a=0 is now a regression input) + exhaustive differential '
                  'correspondence + brute-force sieve oracle',
 }
 
